@@ -130,9 +130,8 @@ func c14Run(c core.Case) core.Result {
 		return core.Skipped("index")
 	}
 	it := items[c.N[0]]
-	small := c.N[1] == 1
 	toks := stokens(it.src)
-	sites := spellSites(toks, small)
+	sites := spellSitesMode(toks, c.N[1])
 	var devs [][2]int
 	for k := 2; k+1 < len(c.N); k += 2 {
 		if c.N[k] >= len(sites) || c.N[k+1] >= len(sites[c.N[k]].alts) {
@@ -230,16 +229,20 @@ func sameTokenSeq(a, b []stok) bool {
 }
 
 func c14Gen(maxDev int, small bool, tagsOnly bool, emit func(core.Case)) {
-	items := c14Items()
 	sm := 0
 	if small {
 		sm = 1
 	}
+	c14GenMode(maxDev, sm, tagsOnly, emit)
+}
+
+func c14GenMode(maxDev int, sm int, tagsOnly bool, emit func(core.Case)) {
+	items := c14Items()
 	for ii, it := range items {
 		if tagsOnly && strings.HasPrefix(it.name, "expr") {
 			continue
 		}
-		sites := spellSites(stokens(it.src), small)
+		sites := spellSitesMode(stokens(it.src), sm)
 		var rec func(start int, cur []int, left int)
 		rec = func(start int, cur []int, left int) {
 			if len(cur) > 0 {
@@ -267,6 +270,7 @@ func c14Levels(tier string) []core.Level {
 		{Name: "canonical spellings parse and render (0 deviations)", Gen: func(emit func(core.Case)) { c14Gen(0, false, false, emit) }},
 		{Name: "every spelling with 1 deviation (whitespace choice from 7 (tab, newline, CR LF, two blanks, mixed, bare CR; none where the neighbours cannot merge), quote style, trailing comma, '-' marker)", Gen: func(emit func(core.Case)) { c14Gen(1, false, false, emit) }},
 		{Name: "every spelling with <= 2 deviations", Gen: func(emit func(core.Case)) { c14Gen(2, false, false, emit) }},
+		{Name: "long gaps: every whitespace site with 40 blanks / a newline and deep indentation / 70 newlines (1 deviation)", Gen: func(emit func(core.Case)) { c14GenMode(1, 2, false, emit) }},
 	}
 	if thorough(tier) {
 		lv = append(lv, core.Level{Name: "every spelling with <= 3 deviations over the reduced whitespace alphabet {none, newline, blank}", Gen: func(emit func(core.Case)) { c14Gen(3, true, false, emit) }})
